@@ -175,7 +175,7 @@ package main
 //@   call NewCPTVFileRecorder#2 assert [C11,C17] $0 == conf && ref($1) == headerInfo && $2 == headerInfo.brand && $3 == headerInfo.model && $4 == headerInfo.serial && $5 == headerInfo.firmware && conf.Recorder.ConstantRecorder
 //@   call NewCPTVFileRecorder#3 assert [C11,C17] $0 == conf && ref($1) == headerInfo && $2 == headerInfo.brand && $3 == headerInfo.model && $4 == headerInfo.serial && $5 == headerInfo.firmware
 //@   call SetAsConstantRecorder#1 assert [C17] $0 == siteres("NewCPTVFileRecorder", 2)
-//@   call NewThrottledRecorder#1 assert [C05,C11] conf.Throttler.Activate && ref($0) == siteres("NewCPTVFileRecorder", 1) && $1 == ref(conf.Throttler) && $2 == conf.Recorder.MinSecs + conf.Recorder.PreviewSecs && ref($4) == headerInfo
+//@   call NewThrottledRecorder#1 assert [C05,C06,C11] conf.Throttler.Activate && ref($0) == siteres("NewCPTVFileRecorder", 1) && $1 == ref(conf.Throttler) && $2 == conf.Recorder.MinSecs + conf.Recorder.PreviewSecs && ref($4) == headerInfo
 //@   call NewMotionProcessor#1 assert [C05,C11] (conf.Throttler.Activate ==> sitehappened("NewThrottledRecorder", 1)) && (sitehappened("NewThrottledRecorder", 1) ==> conf.Throttler.Activate && ref($5) == siteres("NewThrottledRecorder", 1)) && (!conf.Throttler.Activate ==> ref($5) == siteres("NewCPTVFileRecorder", 1))
 //@   call NewMotionProcessor#1 assert [C02,C03,C04,C07,C08,C11,C13,C15] $0 == callres("frameParser", 1) && $0 != nil && $1 == ref(conf.Motion) && $2 == ref(conf.Recorder) && $3 == ref(conf.Location) && ref($6) == headerInfo
 //@   call NewMotionProcessor#1 assert [C12,C17] (conf.Recorder.ConstantRecorder ==> sitehappened("NewCPTVFileRecorder", 2)) && (sitehappened("NewCPTVFileRecorder", 2) ==> conf.Recorder.ConstantRecorder && ref($7) == siteres("NewCPTVFileRecorder", 2)) && (!conf.Recorder.ConstantRecorder ==> ref($7) == 0) && ref($8) == siteres("NewCPTVFileRecorder", 3)
